@@ -319,7 +319,7 @@ pub fn run(cfg: &Cfg, out: &mut Out) {
 
     // 2. random larger DAGs, ranges x..y and arbitrary sets
     let mut r = cfg.rng(37);
-    for _ in 0..cfg.n(120, 4000) {
+    for _ in 0..cfg.n(300, 4000) {
         world.recycle_if_larger(6000);
         let n = r.range(6, 28);
         let local = *r.pick(&[0usize, 2, 3, 5]);
@@ -373,7 +373,7 @@ pub fn run(cfg: &Cfg, out: &mut Out) {
 
     // 4. skips (convex ranges): weaker no-false-result guarantee
     let mut r = cfg.rng(39);
-    for _ in 0..cfg.n(150, 5000) {
+    for _ in 0..cfg.n(500, 5000) {
         world.recycle_if_larger(6000);
         let n = r.range(3, 12);
         let local = *r.pick(&[0usize, 2, 3]);
